@@ -3,6 +3,7 @@ import PyodaProofs.C07b
 import PyodaProofs.C07Stepped
 import PyodaProofs.C07Reformat
 import PyodaProofs.C07Instances
+import PyodaProofs.C07DateTime
 
 #print axioms Pyoda.C07.parseDigits_leftPad
 #print axioms Pyoda.C07.parseDigits_pad2
@@ -49,3 +50,7 @@ import PyodaProofs.C07Instances
 #print axioms Pyoda.C07.reformat_idempotent
 #print axioms Pyoda.C07.isoDate_generic_roundtrip
 #print axioms Pyoda.C07.offsetLong_generic_roundtrip
+#print axioms Pyoda.C07.datetime_pattern_roundtrip
+#print axioms Pyoda.C07.isoDateTime_compiles
+#print axioms Pyoda.C07.isoDateTime_delimited
+#print axioms Pyoda.C07.isoDateTime_generic_roundtrip
